@@ -38,6 +38,7 @@
   OBLIGATION c13_string_token
   OBLIGATION c13_value_partial
   OBLIGATION c13_arguments_partial
+  OBLIGATION c13_value_complete
   OPEN c13_full
 -/
 import AGV.Lemmas.ParseC13
@@ -47,7 +48,7 @@ import AGV.Lemmas.ParseC13Block
 import AGV.Lemmas.ParseC13Number
 import AGV.Lemmas.ParseC13PairsWf
 import AGV.Lemmas.PegC13TokSpec
-import AGV.Lemmas.PegC13Val7
+import AGV.Lemmas.PegC13SpecFin
 
 namespace AGV.Props.C13
 open AGV.Model.BuildAst AGV.Core.PAst AGV.Lemmas.ParseC13
@@ -536,6 +537,26 @@ theorem c13_arguments_partial (const : Bool) (s₀ : List Char) (q : Nat) (t : L
   | true => exact key famC (Or.inr rfl)
 
 example : TokStart "(a: 1, b: [$v \"s\"] c:{d:E})@x".toList := tokStart_cons (by decide) (by decide)
+
+/-- Completeness of the value productions against the specification with its documented
+    parameters (finite floats only): whenever the specification reads a `Value[Const]` `v` at the
+    head of the token stream of `t`, the interpreter accepts, leaves the text with the
+    specification's remaining tokens, and the tree builder computes `v` (stored form) from the
+    emitted pair — every kind of value, floats included, any nesting, no further hypothesis. -/
+theorem c13_value_complete (const : Bool) (s₀ : List Char) (q : Nat) (t : List Char)
+    (hat : ∃ pre, s₀ = pre ++ t ∧ pre.length = q) (ht : TokStart t) (f : Nat) (hf : 24 * t.length + 60 ≤ f)
+    (v : PValue) (ts' : List AGV.Spec.Lex.Tok)
+    (h : AGV.Spec.Parse.pValue {} const ((toks t).length + 1) (toks t) = some (v, ts')) :
+    ∃ s' pr, eval (grammarFor Defects.none) f {} (.ident (if const then "const_value" else "value")) q t =
+        .ok (q + (t.length - s'.length)) s' [pr] ∧
+      toks s' = ts' ∧ s'.length < t.length ∧ pr.start = q ∧
+      ∀ bf, s₀.length - q < bf → buildValue ⟨Defects.none, s₀.toArray⟩ bf pr = .ok (normV v) := by
+  obtain ⟨h1, h2⟩ := pValue_fin (P := {}) rfl h
+  have hp := c13_value_partial const s₀ q t hat ht f hf
+  have e : ({ finiteFloats := false } : AGV.Spec.Parse.Params) = P' := rfl
+  rw [e, h1] at hp
+  obtain ⟨s', pr, a1, a2, a3, a4, a5⟩ := hp
+  exact ⟨s', pr, a1, a2, a3, a4, a5 h2⟩
 
 end Tokens
 
